@@ -205,7 +205,7 @@ Definition c11_ok : bool :=
   forallb prefix_ok (seq 0 nobs) &&
   c11_timing &&
   (if N.eqb (sched c) 1 then keeps_up ms else true) &&
-  (if cancelled_run && outputs_closed (before_end ms) then Nat.eqb live_at_end 0 else true) &&
+  (if cancelled_run && (outputs_closed (before_end ms) || N.eqb (sched c) 3) then Nat.eqb live_at_end 0 else true) &&
   (if cancelled_run then outputs_closed ms else true).
 
 (* ---------- C12 ---------- *)
